@@ -4,6 +4,7 @@
 
 from typing import List, Optional
 from . import _error
+from . import _expression
 from . import _serializable
 from . import _bit_length_set
 
@@ -24,7 +25,7 @@ class DelimitedSerializationMode(SerializationMode):
         self.extent = int(extent)
 
     def __str__(self) -> str:
-        return "delimited (extent %d bits)" % self.extent
+        return "delimited (extent %s bits)" % _expression.Rational(self.extent)
 
 
 class SealedSerializationMode(SerializationMode):
